@@ -814,7 +814,6 @@ func ruleR14(c *Ctx) {
 	c.r.floor("R14", 20, "counter writers", "C06")
 }
 
-
 // onlyReachedFrom: u is a helper of the method called want – reachable from it and not from the
 // method called other (a helper Delete hands its work to may decrement the counter; one that
 // Insert also reaches may not).
@@ -825,7 +824,6 @@ func (c *Ctx) onlyReachedFrom(u *FuncUnit, want, other string) bool {
 	}
 	return ou == nil || !c.reachableFrom([]*FuncUnit{ou})[u]
 }
-
 
 // takesSlot: a package-level function with a *nodeRef parameter – a part of the insertion
 // algorithm moved out of the method (splitLeaf(ref, …)).
